@@ -321,6 +321,24 @@ def duplicate_rule(prog, res, q, ptype0, group, name_re):
             partial = True
             continue
         ok = True
+    # a std algorithm over the label list and a list of the new names decides the refusal
+    if not ok:
+        for n in f.all_nodes({'IfStmt'}):
+            ths = [f.nodes[x] for x in f.descendants(n['then']) if f.nodes[x]['k'] == 'CXXThrowExpr']
+            if not ths:
+                continue
+            for x in f.descendants(n['cond']):
+                c_ = f.nodes[x]
+                q_ = c_.get('callee', {}).get('qname') if c_['k'] == 'CallExpr' else None
+                if q_ in ('std::search', 'std::includes', 'std::equal', 'std::mismatch', 'std::find_end', 'std::search_n', 'std::lexicographical_compare'):
+                    rargs = [R.render(a) for a in f.call_args(c_)]
+                    if any('LABELS' in a or any(a.startswith('local:' + d['name']) for dn in f.all_nodes({'DeclStmt'}) for d in dn['decls'] if 'init' in d and lab in R.render(d['init'])) for a in rargs):
+                        partial = True
+                        why = '%s over the label list refuses only when the new names occur there as one run in the same order (or all of them): a single name that already exists among others is accepted' % q_
+                elif q_ == 'std::find_first_of':
+                    rargs = [R.render(a) for a in f.call_args(c_)]
+                    if len(rargs) == 4 and rargs[0].endswith('.begin()') and rargs[1].endswith('.end()') and rargs[2].endswith('.begin()') and rargs[3].endswith('.end()'):
+                        why = 'std::find_first_of over two lists: whether the second list holds every new name is not read by the rule'
     if ok:
         res.ok('duplicate-rule', inst, f.loc(), 'every new name x every %s:LABELS entry compared for equality -> std::invalid_argument' % group, function=f.sig, expr='duplicate')
     elif partial or not mentions_with_refusal(f, R, 'parameter("LABELS")'):
